@@ -798,3 +798,62 @@ def mutate_invalid(rng, schema):
         if rule == 'missing_include':
             root.includes.append('no_such_file_77'); return s, rule
     return None
+
+
+# ---------------------------------------------------------------------- error budget (FLATCC_MAX_ERRORS) inputs
+ONE_ERR = {'table': ['a%d:;', 'a%d:int', 'a%d int;', '%d:int;'], 'struct': ['a%d:;', 'a%d:int', 'a%d int;'],
+           'rpc_service': ['M%d(:T;', 'M%d(T)T;', 'M%d T;'], 'enum': ['A%d = ,', '%d,', 'A%d = x y,'], 'union': ['%d,', 'A%d: ,', 'A%d = ,']}
+TWO_ERR = {'table': ['y%d:[;', 'y%d:[[;', 'y%d:[int (;'], 'struct': ['y%d:[;', 'y%d:[:3;'], 'rpc_service': ['N%d([):[;', 'N%d([;'],
+           'enum': ['B%d = [ = ,', '= = ,'], 'union': ['B%d: [,', '[ [,']}
+OPEN = {'table': 'table T%d {', 'struct': 'struct S%d {', 'rpc_service': 'rpc_service R%d {', 'enum': 'enum E%d : int {', 'union': 'union U%d {'}
+ENDINGS = ['', ' ', ' a', ' a:', ' a:int', ' a:int;', ' a:[', ' (', ' a:int (id', ' a:int = ', '\n// c', ' /*']
+
+
+def error_budget_inputs(rng, full=False):
+    """inputs that accumulate about k = 0..14 diagnostics from items reporting one and items reporting two diagnostics, inside the body
+    of each kind of declaration, and then END (end of input) inside that body or inside a freshly opened body of any kind.
+    Termination then rests on the error cap alone. Yields (label, text)."""
+    kinds = list(OPEN)
+    n = 0
+    for kind in kinds:
+        for ones in range(0, 13):
+            for twos in ((0, 1, 2, 3) if full else (0, 1, 2)):
+                if not full and rng.random() < 0.35 and not (7 <= ones + 2 * twos <= 12): continue
+                items = [rng.choice(ONE_ERR[kind]).replace('%d', str(i)) for i in range(ones)]
+                tw = [rng.choice(TWO_ERR[kind]).replace('%d', str(i)) for i in range(twos)]
+                order = rng.choice(['ones_first', 'twos_last', 'mixed'])
+                if order == 'mixed':
+                    items = items + tw; rng.shuffle(items)
+                else: items = items + tw
+                n += 1
+                body = OPEN[kind] % n + ' ' + ' '.join(items)
+                # end of input inside the same body
+                yield ('same:%s:%d+2x%d' % (kind, ones, twos), body + rng.choice(ENDINGS))
+                # ... or close it (or not) and end inside another body
+                k2 = rng.choice(kinds)
+                yield ('next:%s>%s:%d+2x%d' % (kind, k2, ones, twos), body + rng.choice([' }\n', '\n', ' } ']) + OPEN[k2] % (n + 1000) + rng.choice(ENDINGS))
+    # the errors spread over several declarations of different kinds
+    for _ in range(200 if full else 60):
+        parts, total = [], 0
+        target = rng.randint(7, 12)
+        while total < target:
+            kind = rng.choice(kinds); n += 1
+            k1 = rng.randint(0, 3); k2 = rng.randint(0, 1)
+            its = [rng.choice(ONE_ERR[kind]).replace('%d', str(i)) for i in range(k1)] + [rng.choice(TWO_ERR[kind]).replace('%d', str(i)) for i in range(k2)]
+            parts.append(OPEN[kind] % n + ' ' + ' '.join(its) + ' }'); total += k1 + 2 * k2
+        kind = rng.choice(kinds)
+        yield ('spread:%s' % kind, '\n'.join(parts) + '\n' + OPEN[kind] % (n + 1) + rng.choice(ENDINGS))
+
+
+def many_error_texts(rng, count=3):
+    """texts with many diagnostics of both weights in every kind of body, to be truncated at every byte"""
+    out = []
+    for _ in range(count):
+        parts = []
+        for j, kind in enumerate(rng.sample(list(OPEN), len(OPEN))):
+            its = []
+            for i in range(rng.randint(2, 5)):
+                its.append((rng.choice(TWO_ERR[kind]) if rng.random() < 0.4 else rng.choice(ONE_ERR[kind])).replace('%d', str(i)))
+            parts.append(OPEN[kind] % j + ' ' + ' '.join(its) + ' }')
+        out.append('\n'.join(parts) + '\n')
+    return out
